@@ -805,8 +805,18 @@ def vf_while_enter(key, loc):
     return h.enter(loc)
 
 
+LOOP_UNFOLD_LIMIT = 64
+
+
 def vf_while_step(key, loc):
     h = WHILE_CUTS.get(key)
+    if h is None:
+        # a loop without a registered invariant is unfolded; over symbolic data that may never end: give up loudly
+        c = sym.Ctx.cur
+        if c is not None:
+            n = c.loop_steps[key] = c.loop_steps.get(key, 0) + 1
+            if n > LOOP_UNFOLD_LIMIT:
+                raise EngineUnsupported("loop %s has no registered invariant and was unfolded more than %d times on one path" % (key, LOOP_UNFOLD_LIMIT))
     if h is not None:
         import sys as _sys
         if _sys.exc_info()[1] is not None:
